@@ -10,7 +10,9 @@ def run(ctx):
         "storage, xlsb ignorable records whose payload aliases record ids) for all four formats; each is materialised "
         "and sheet_names, sheets_metadata, defined_names and the date flag seen by a date cell of every worksheet are "
         "compared with the declaration; random 0..12-sheet workbooks are validated as a trace")
-    ctx.assumptions += ["token-encoded defined names of xls/xlsb are decided with the formula model (C14)",
+    ctx.rules.append("MC_Lbl8: xls defined names given by tokens (PtgRef3d / PtgArea3d / error 3-D tokens through an "
+                     "XTI table that is not in sheet order, names stored 8- and 16-bit) -> Xls::defined_names")
+    ctx.assumptions += ["token-encoded defined names of xlsb are decided with the formula model (C14)",
                         "ods expresses visible/hidden worksheets only"]
     tier = "quick" if ctx.quick else "thorough"
     for part in ("names", "order"):
@@ -18,6 +20,9 @@ def run(ctx):
                     timeout=ctx.pick(600, 3000), xmx=ctx.pick("4g", "12g"))
         if "REPLAY" in r["tags"]:
             ctx.replay("metadata", r["tags"]["REPLAY"])
+    r = ctx.tlc("fmla", "MC_Lbl8", "MC_Lbl8.cfg", workers=2, timeout=300)
+    if "REPLAY" in r["tags"]:
+        ctx.replay("lbl8", r["tags"]["REPLAY"])
     trace = ctx.work + "/metadata_trace.ndjson"
     ctx.cvh(["drive", "metadata", "--out", trace, "--n", ctx.pick(120, 3000)])
     v = ctx.validate_trace("meta", "Trace_Metadata", "Trace_Metadata.cfg", trace, timeout=ctx.pick(600, 3000))
